@@ -240,6 +240,25 @@ def _bounded_flags(tier, seed):
                 p = check_desc(d)
                 if p:
                     bad({'text': t2, 'config': cfg}, p, 'well-typed, paired, shared flags')
+        # (3) two different kinds of wording in the same block, in either order: each kind raises its own warning
+        k1, k2 = rng.sample(sorted(TRIGGERS), 2)
+        p1, p2 = rng.choice(TRIGGERS[k1]), rng.choice(TRIGGERS[k2])
+        blocks_at = [m.start() for m in re.finditer(r'(?<=[:,;] )|(?<= of )', text)] or [0]
+        pos = rng.choice(blocks_at)
+        t3 = text[:pos] + p1 + ' the Smith #1 ' + p2 + ' the ' + text[pos:]
+        for cfg in ('', 'segment', 'copy_all'):
+            try:
+                d = pytrs.PLSSDesc(t3, config=cfg)
+            except Exception:
+                continue
+            ev += 1
+            distinct.add((t3, cfg, k1, k2))
+            for kind, phrase in ((k1, p1), (k2, p2)):
+                hits = [l for f, l in d.w_flag_lines if f == kind]
+                core = phrase.lower().split()[0]
+                if not hits or not any(core in l.lower() for l in hits):
+                    bad({'text': t3, 'config': cfg, 'triggers': [p1, p2], 'kind': kind}, d.w_flag_lines,
+                        f'warning {kind!r} whose context contains {core!r} (two kinds of wording in one block)')
         if len(samples) < 2:
             samples.append({'text': text[:80], 'layout': layout})
     # token soup
@@ -256,7 +275,7 @@ def _bounded_flags(tier, seed):
                 bad({'text': text, 'config': cfg}, p, 'well-typed, paired, shared flags')
     return {'evaluations': ev, 'distinct_nontrivial': len(distinct), 'violations': violations, 'samples': samples, 'exhaustive': False,
             'bound': f"{n_desc} generated descriptions (4 layouts, spellings) x damaged variants x {len(cfgs)} configs; 5 trigger kinds "
-                     "inserted at block starts x 4 configs; token soup",
+                     "inserted at block starts x 4 configs, and pairs of two different kinds in one block x 3 configs; token soup",
             'rule': "flag typing/pairing/sharing, flawed <=> error flag, error TRS => error flag, trigger phrase => warning with the "
                     "phrase in its context; non-trivial = distinct (text, config)"}
 
